@@ -1,8 +1,419 @@
-(* C03 -- time-window reads.  Statements only; proofs in Proofs/Window*.v. *)
-From AwVerif Require Import Base.Prelude Model.StoreBase Model.Window Proofs.WindowRound.
+(* C03 -- Time-window reads return exactly the intersecting events, newest first, limited.
+   Statements only (`exact lemma`); definitions and proofs live in Model/Window.v and
+   Proofs/Window*.v.  Vocabulary:
+     bucket_get_round ws we   Bucket.get's rounding of the requested window (ws', we')
+     meets m ws we e          [ts e, ts e + dur e] reaches into [ws + m, we - m] (edges optional);
+                              m > 0: certainly inside, m < 0: within |m| of the window
+     X_read c b limit ws we   Bucket.get(limit, ws, we) on back end X
+     X_readcount c b ws we    Bucket.get_eventcount(ws, we) on back end X (edges NOT rounded)
+     desc ts L                timestamps of L non-increasing
+     take limit U             0 -> [], negative -> U, k > 0 -> firstn k U
+   Oracle hypotheses (Section variables of the proofs, explicit premises here):
+     float_param_ok plo/phi   sqlite's float query parameter is within 1 us of the instant
+     sql_end_ok sql_end_ms    SQLite's julianday/strftime end instant is within 1 ms of ts+dur *)
+From Coq Require Import Permutation Sorted.
+From AwVerif Require Import Base.Prelude Model.StoreBase Model.MemStore Model.SqliteStore
+  Model.PeeweeStore Model.PyFloat Model.Window Model.WindowFloat
+  Proofs.WindowRound Proofs.WindowBase Proofs.WindowSpec Proofs.WindowMem Proofs.WindowSqlite
+  Proofs.WindowPeewee Proofs.WindowAll Proofs.WindowFloat.
+
+(* ------------------------------------------------------------------------- *)
+(* the rounding of Bucket.get *)
 
 Theorem C03_round_closed : forall ws we,
   bucket_get_round ws we =
   (option_map floor_ms ws, option_map (fun t => floor_ms t + 1000) we).
 Proof. exact bucket_get_round_closed. Qed.
 Print Assumptions C03_round_closed.
+
+(* the code's float expressions (binary64 division, int()) compute the integer model, for
+   every aware datetime (utc instant, utcoffset) *)
+Theorem C03_round_float : forall utc off,
+  round_start_f utc off = Ok (round_start_tz utc off) /\
+  round_end_f utc off = Ok (round_end_tz utc off).
+Proof. exact (fun utc off => conj (round_start_f_exact utc off) (round_end_f_exact utc off)). Qed.
+Print Assumptions C03_round_float.
+
+Theorem C03_round_whole_ms_offset : forall utc off, off mod 1000 = 0 ->
+  round_start_tz utc off = round_start utc /\ round_end_tz utc off = round_end utc.
+Proof. exact round_tz_whole_ms. Qed.
+Print Assumptions C03_round_whole_ms_offset.
+
+Theorem C03_round_any_offset : forall utc off,
+  utc - 1000 < round_start_tz utc off <= utc /\ utc < round_end_tz utc off <= utc + 1000.
+Proof. exact round_tz_bounds. Qed.
+Print Assumptions C03_round_any_offset.
+
+(* ------------------------------------------------------------------------- *)
+(* limit and order, for any back end *)
+
+Theorem C03_limit_cases : forall (limit : Z) (U : list event),
+  (limit = 0 -> take limit U = []) /\
+  (limit < 0 -> take limit U = U) /\
+  (0 < limit -> take limit U = firstn (Z.to_nat limit) U).
+Proof. exact (@take_cases event). Qed.
+Print Assumptions C03_limit_cases.
+
+(* a positive limit keeps the newest: every kept event is at least as new as every omitted match *)
+Theorem C03_limit_keeps_newest : forall (k : nat) (U : list event) x y,
+  desc ts U -> In x (firstn k U) -> In y (skipn k U) -> ts y <= ts x.
+Proof. exact prefix_newer. Qed.
+Print Assumptions C03_limit_keeps_newest.
+
+(* ------------------------------------------------------------------------- *)
+(* memory (delta = 0 at the rounded edges) *)
+
+Theorem C03_unlimited_mem : forall c b m es, mem_view c b = Some (m, es) -> forall ws we,
+  exists U, mem_read c b (-1) ws we = Ok (OEvents U) /\
+    Permutation U (filter (meets 0 (fst (bucket_get_round ws we)) (snd (bucket_get_round ws we))) es).
+Proof. exact mem_unlimited. Qed.
+Print Assumptions C03_unlimited_mem.
+
+Theorem C03_complete_mem : forall c b m es, mem_view c b = Some (m, es) -> forall ws we e,
+  In e es -> meets 0 ws we e = true ->
+  exists U, mem_read c b (-1) ws we = Ok (OEvents U) /\ In e U.
+Proof. exact mem_complete. Qed.
+Print Assumptions C03_complete_mem.
+
+Theorem C03_sound_mem : forall c b m es, mem_view c b = Some (m, es) -> forall ws we limit L e,
+  mem_read c b limit ws we = Ok (OEvents L) -> In e L ->
+  In e es /\
+  meets 0 (fst (bucket_get_round ws we)) (snd (bucket_get_round ws we)) e = true /\
+  meets (-1000) ws we e = true.
+Proof. exact mem_sound. Qed.
+Print Assumptions C03_sound_mem.
+
+Theorem C03_sorted_desc_mem : forall c b m es, mem_view c b = Some (m, es) -> forall ws we limit L,
+  mem_read c b limit ws we = Ok (OEvents L) -> desc ts L.
+Proof. exact mem_sorted_desc. Qed.
+Print Assumptions C03_sorted_desc_mem.
+
+Theorem C03_limit_mem : forall c b m es, mem_view c b = Some (m, es) -> forall ws we limit,
+  exists U, mem_read c b (-1) ws we = Ok (OEvents U) /\ desc ts U /\
+            mem_read c b limit ws we = Ok (OEvents (take limit U)).
+Proof. exact mem_limit. Qed.
+Print Assumptions C03_limit_mem.
+
+Theorem C03_count_mem : forall c b m es, mem_view c b = Some (m, es) -> forall ws we,
+  mem_readcount c b ws we = Ok (OCount (Z.of_nat (length (filter (meets 0 ws we) es)))).
+Proof. exact mem_count_exact. Qed.
+Print Assumptions C03_count_mem.
+
+Theorem C03_count_same_edges_mem : forall c b m es, mem_view c b = Some (m, es) -> forall ws we,
+  exists U0, mem_get c b (-1) ws we = Ok (OEvents U0) /\
+             mem_readcount c b ws we = Ok (OCount (Z.of_nat (length U0))).
+Proof. exact mem_count_same_edges. Qed.
+Print Assumptions C03_count_same_edges_mem.
+
+Theorem C03_count_vs_read_mem : forall c b m es, mem_view c b = Some (m, es) -> forall ws we,
+  exists n U, mem_readcount c b ws we = Ok (OCount (Z.of_nat n)) /\
+              mem_read c b (-1) ws we = Ok (OEvents U) /\
+              (n <= length U <= length (filter (meets (-1000) ws we) es))%nat.
+Proof. exact mem_count_vs_read. Qed.
+Print Assumptions C03_count_vs_read_mem.
+
+Theorem C03_window_mem : forall c b m es ws we, mem_view c b = Some (m, es) ->
+  (forall e, In e es -> meets DELTA ws we e = true ->
+     exists U, mem_read c b (-1) ws we = Ok (OEvents U) /\ In e U) /\
+  (forall limit L e, mem_read c b limit ws we = Ok (OEvents L) -> In e L ->
+     In e es /\ meets (- DELTA) ws we e = true).
+Proof. exact mem_window_delta. Qed.
+Print Assumptions C03_window_mem.
+
+(* ------------------------------------------------------------------------- *)
+(* sqlite (delta = 1 us: the float parameters), for every pair of parameter functions within
+   1 us of the instant; edges and events in the 1970.. domain *)
+
+Theorem C03_unlimited_sqlite : forall plo phi c b m es, sq_view c b = Some (m, es) -> forall ws we,
+  exists U, sq_read plo phi c b (-1) ws we = Ok (OEvents U) /\
+    Permutation U (filter (sq_pred (sqx_lo plo (fst (bucket_get_round ws we)))
+                                   (sqx_hi phi (snd (bucket_get_round ws we)))) es).
+Proof. exact sq_unlimited. Qed.
+Print Assumptions C03_unlimited_sqlite.
+
+Theorem C03_complete_sqlite : forall plo phi, float_param_ok plo -> float_param_ok phi ->
+  forall c b m es, sq_view c b = Some (m, es) -> forall ws we, edge_dom ws -> edge_dom we ->
+  forall e, In e es -> ev_dom e -> meets 1 ws we e = true ->
+  exists U, sq_read plo phi c b (-1) ws we = Ok (OEvents U) /\ In e U.
+Proof. exact sq_complete. Qed.
+Print Assumptions C03_complete_sqlite.
+
+Theorem C03_sound_sqlite : forall plo phi, float_param_ok plo -> float_param_ok phi ->
+  forall c b m es, sq_view c b = Some (m, es) -> forall ws we, edge_dom ws -> edge_dom we ->
+  forall limit L e, sq_read plo phi c b limit ws we = Ok (OEvents L) -> In e L ->
+  In e es /\
+  meets (-1) (fst (bucket_get_round ws we)) (snd (bucket_get_round ws we)) e = true /\
+  meets (-1001) ws we e = true.
+Proof. exact sq_sound. Qed.
+Print Assumptions C03_sound_sqlite.
+
+Theorem C03_sorted_desc_sqlite : forall plo phi c b m es, sq_view c b = Some (m, es) ->
+  forall ws we limit L, sq_read plo phi c b limit ws we = Ok (OEvents L) -> desc ts L.
+Proof. exact sq_sorted_desc. Qed.
+Print Assumptions C03_sorted_desc_sqlite.
+
+Theorem C03_limit_sqlite : forall plo phi c b m es, sq_view c b = Some (m, es) -> forall ws we limit,
+  exists U, sq_read plo phi c b (-1) ws we = Ok (OEvents U) /\ desc ts U /\
+            sq_read plo phi c b limit ws we = Ok (OEvents (take limit U)).
+Proof. exact sq_limit. Qed.
+Print Assumptions C03_limit_sqlite.
+
+Theorem C03_count_sqlite : forall plo phi, float_param_ok plo -> float_param_ok phi ->
+  forall c b m es, sq_view c b = Some (m, es) -> forall ws we, edge_dom ws -> edge_dom we ->
+  Forall ev_dom es ->
+  exists n, sq_readcount plo phi c b ws we = Ok (OCount (Z.of_nat n)) /\
+    (length (filter (meets 1 ws we) es) <= n <= length (filter (meets (-1) ws we) es))%nat.
+Proof. exact sq_count_bounds. Qed.
+Print Assumptions C03_count_sqlite.
+
+Theorem C03_count_same_edges_sqlite : forall plo phi c b m es, sq_view c b = Some (m, es) ->
+  forall ws we, exists U0,
+    sqx_get plo phi c b (-1) ws we = Ok (OEvents U0) /\
+    sq_readcount plo phi c b ws we = Ok (OCount (Z.of_nat (length U0))).
+Proof. exact sq_count_same_edges. Qed.
+Print Assumptions C03_count_same_edges_sqlite.
+
+Theorem C03_read_bounds_sqlite : forall plo phi, float_param_ok plo -> float_param_ok phi ->
+  forall c b m es, sq_view c b = Some (m, es) -> forall ws we, edge_dom ws -> edge_dom we ->
+  Forall ev_dom es ->
+  exists U, sq_read plo phi c b (-1) ws we = Ok (OEvents U) /\
+    (length (filter (meets 1 ws we) es) <= length U <= length (filter (meets (-1001) ws we) es))%nat.
+Proof. exact sq_read_bounds. Qed.
+Print Assumptions C03_read_bounds_sqlite.
+
+Theorem C03_window_sqlite : forall plo phi c b m es ws we,
+  float_param_ok plo -> float_param_ok phi ->
+  sq_view c b = Some (m, es) -> edge_dom ws -> edge_dom we ->
+  (forall e, In e es -> ev_dom e -> meets DELTA ws we e = true ->
+     exists U, sq_read plo phi c b (-1) ws we = Ok (OEvents U) /\ In e U) /\
+  (forall limit L e, sq_read plo phi c b limit ws we = Ok (OEvents L) -> In e L ->
+     In e es /\ meets (- DELTA) ws we e = true).
+Proof. exact sq_window_delta. Qed.
+Print Assumptions C03_window_sqlite.
+
+(* with exact parameters the refined read is the store model's own get_events *)
+Theorem C03_sqlite_refines_store_model : forall c b limit st en,
+  sqx_get (fun t => t) (fun t => t) c b limit st en = snd (sq_step c (GetEvents b limit st en)).
+Proof. exact sqx_get_id. Qed.
+Print Assumptions C03_sqlite_refines_store_model.
+
+(* domain limit, recorded: an event that ended before 1970 is dropped by the open-ended read *)
+Theorem C03_complete_sqlite_needs_dom :
+  exists m e, sq_view pre1970_state 1 = Some (m, [e]) /\ ~ ev_dom e /\
+              sq_read (fun t => t) (fun t => t) pre1970_state 1 (-1) None None = Ok (OEvents []).
+Proof. exact sq_complete_needs_dom. Qed.
+Print Assumptions C03_complete_sqlite_needs_dom.
+
+(* ------------------------------------------------------------------------- *)
+(* peewee (start edge: 1 ms oracle error + 1 ms strict TEXT comparison; end edge exact), for
+   every sql_end_ms within 1 ms of ts + dur; stored events of 0 .. 24 h inside 1970 .. 2^52 us *)
+
+Theorem C03_unlimited_peewee : forall sql_end_ms c b es, pw_stored c b = Some es -> forall ws we,
+  exists U, pw_read sql_end_ms c b (-1) ws we = Ok (OEvents U) /\
+    Permutation U (map (pw_clip (fst (bucket_get_round ws we)) (snd (bucket_get_round ws we)))
+                       (filter (pwx_pred sql_end_ms (fst (bucket_get_round ws we))
+                                                    (snd (bucket_get_round ws we))) es)).
+Proof. exact pw_unlimited. Qed.
+Print Assumptions C03_unlimited_peewee.
+
+Theorem C03_complete_peewee : forall sql_end_ms, sql_end_ok sql_end_ms ->
+  forall c b es, pw_stored c b = Some es -> Forall pw_dom es -> forall ws we e,
+  In e es -> meets 2000 ws we e = true ->
+  exists U, pw_read sql_end_ms c b (-1) ws we = Ok (OEvents U) /\
+            In (pw_clip (fst (bucket_get_round ws we)) (snd (bucket_get_round ws we)) e) U.
+Proof. exact pw_complete. Qed.
+Print Assumptions C03_complete_peewee.
+
+Theorem C03_complete_rounded_peewee : forall sql_end_ms, sql_end_ok sql_end_ms ->
+  forall c b es, pw_stored c b = Some es -> Forall pw_dom es -> forall ws we e,
+  In e es ->
+  (forall w, fst (bucket_get_round ws we) = Some w -> w + 2000 <= eend e) ->
+  (forall w, snd (bucket_get_round ws we) = Some w -> ts e <= w) ->
+  exists U, pw_read sql_end_ms c b (-1) ws we = Ok (OEvents U) /\
+            In (pw_clip (fst (bucket_get_round ws we)) (snd (bucket_get_round ws we)) e) U.
+Proof. exact pw_complete_rounded. Qed.
+Print Assumptions C03_complete_rounded_peewee.
+
+Theorem C03_sound_peewee : forall sql_end_ms, sql_end_ok sql_end_ms ->
+  forall c b es, pw_stored c b = Some es -> Forall pw_dom es -> forall ws we, ordered ws we ->
+  forall limit L x, pw_read sql_end_ms c b limit ws we = Ok (OEvents L) -> In x L ->
+  exists e, In e es /\
+    x = pw_clip (fst (bucket_get_round ws we)) (snd (bucket_get_round ws we)) e /\
+    meets (-1000) (fst (bucket_get_round ws we)) (snd (bucket_get_round ws we)) e = true /\
+    (forall w, snd (bucket_get_round ws we) = Some w -> ts e <= w) /\
+    meets (-2000) ws we e = true.
+Proof. exact pw_sound. Qed.
+Print Assumptions C03_sound_peewee.
+
+Theorem C03_sorted_desc_peewee : forall sql_end_ms c b es, pw_stored c b = Some es ->
+  forall ws we limit L, pw_read sql_end_ms c b limit ws we = Ok (OEvents L) -> desc ts L.
+Proof. exact pw_sorted_desc. Qed.
+Print Assumptions C03_sorted_desc_peewee.
+
+Theorem C03_limit_peewee : forall sql_end_ms c b es, pw_stored c b = Some es -> forall ws we limit,
+  exists U, pw_read sql_end_ms c b (-1) ws we = Ok (OEvents U) /\ desc ts U /\
+            pw_read sql_end_ms c b limit ws we = Ok (OEvents (take limit U)).
+Proof. exact pw_limit. Qed.
+Print Assumptions C03_limit_peewee.
+
+Theorem C03_count_peewee : forall sql_end_ms, sql_end_ok sql_end_ms ->
+  forall c b es, pw_stored c b = Some es -> Forall pw_dom es -> forall ws we,
+  exists n, pw_readcount sql_end_ms c b ws we = Ok (OCount (Z.of_nat n)) /\
+    (length (filter (meets 2000 ws we) es) <= n <= length (filter (meets (-2000) ws we) es))%nat.
+Proof. exact pw_count_bounds. Qed.
+Print Assumptions C03_count_peewee.
+
+Theorem C03_count_same_edges_peewee : forall sql_end_ms c b es, pw_stored c b = Some es ->
+  forall ws we, exists U0,
+    pwx_get sql_end_ms c b (-1) ws we = Ok (OEvents U0) /\
+    pw_readcount sql_end_ms c b ws we = Ok (OCount (Z.of_nat (length U0))).
+Proof. exact pw_count_same_edges. Qed.
+Print Assumptions C03_count_same_edges_peewee.
+
+Theorem C03_read_bounds_peewee : forall sql_end_ms, sql_end_ok sql_end_ms ->
+  forall c b es, pw_stored c b = Some es -> Forall pw_dom es -> forall ws we, ordered ws we ->
+  exists U, pw_read sql_end_ms c b (-1) ws we = Ok (OEvents U) /\
+    (length (filter (meets 2000 ws we) es) <= length U <= length (filter (meets (-2000) ws we) es))%nat.
+Proof. exact pw_read_bounds. Qed.
+Print Assumptions C03_read_bounds_peewee.
+
+Theorem C03_window_peewee : forall sql_end_ms c b es ws we, sql_end_ok sql_end_ms ->
+  pw_stored c b = Some es -> Forall pw_dom es -> ordered ws we ->
+  (forall e, In e es -> meets DELTA ws we e = true ->
+     exists U, pw_read sql_end_ms c b (-1) ws we = Ok (OEvents U) /\
+               In (pw_clip (fst (bucket_get_round ws we)) (snd (bucket_get_round ws we)) e) U) /\
+  (forall limit L x, pw_read sql_end_ms c b limit ws we = Ok (OEvents L) -> In x L ->
+     exists e, In e es /\
+               x = pw_clip (fst (bucket_get_round ws we)) (snd (bucket_get_round ws we)) e /\
+               meets (- DELTA) ws we e = true).
+Proof. exact pw_window_delta. Qed.
+Print Assumptions C03_window_peewee.
+
+(* each returned event is the stored event cut to the rounded window and nothing else: same id
+   and data, start max(ts, ws'), duration max(0, min(end, we') - start); unchanged when the
+   stored event lies inside the rounded window *)
+Theorem C03_clip_exact_peewee : forall sql_end_ms, sql_end_ok sql_end_ms ->
+  forall c b es, pw_stored c b = Some es -> Forall pw_dom es -> forall ws we, ordered ws we ->
+  forall limit L x, pw_read sql_end_ms c b limit ws we = Ok (OEvents L) -> In x L ->
+  exists e, In e es /\
+    eid x = eid e /\ data x = data e /\
+    ts x = match fst (bucket_get_round ws we) with Some w => Z.max (ts e) w | None => ts e end /\
+    dur x = Z.max 0 (match snd (bucket_get_round ws we) with
+                     | Some w => Z.min (eend e) w | None => eend e end - ts x) /\
+    ((forall w, fst (bucket_get_round ws we) = Some w -> w <= ts e) ->
+     (forall w, snd (bucket_get_round ws we) = Some w -> eend e <= w) -> x = e).
+Proof. exact pw_returned_clipped. Qed.
+Print Assumptions C03_clip_exact_peewee.
+
+(* the clipping loop alone (any start edge on the millisecond grid) *)
+Theorem C03_clip_formula_peewee : forall st en e,
+  (forall w, st = Some w -> w mod 1000 = 0) ->
+  (forall w, en = Some w -> ts e <= w) ->
+  (forall a z, st = Some a -> en = Some z -> a <= z) ->
+  0 <= dur e ->
+  pw_clip st en e =
+  mkEvent (eid e)
+          (match st with Some w => Z.max (ts e) w | None => ts e end)
+          (Z.max 0 (match en with Some w => Z.min (eend e) w | None => eend e end -
+                    match st with Some w => Z.max (ts e) w | None => ts e end))
+          (data e).
+Proof. exact pw_clip_exact. Qed.
+Print Assumptions C03_clip_formula_peewee.
+
+Theorem C03_clip_never_negative_peewee : forall st en e,
+  (forall w, en = Some w -> ts e <= w) ->
+  (forall a z, st = Some a -> en = Some z -> a <= z) ->
+  0 <= dur e -> 0 <= dur (pw_clip st en e).
+Proof. exact pw_clip_dur_nonneg. Qed.
+Print Assumptions C03_clip_never_negative_peewee.
+
+(* for events of at most 24 h the prefilter never removes an event reaching the window start *)
+Theorem C03_prefilter_peewee : forall ws r,
+  pe_dur r <= DAY_US -> ws <= pe_ts r + pe_dur r -> pw_prefilter ws r = true.
+Proof. exact pw_prefilter_harmless. Qed.
+Print Assumptions C03_prefilter_peewee.
+
+(* ------------------------------------------------------------------------- *)
+(* non-vacuity: the hypotheses are inhabited by concrete, non-trivial values *)
+
+Definition ex_meta : meta := mkMeta 1 1 1 0 None 0.
+(* nested, overlapping, adjacent and zero-length events around 1 600 000 000 s *)
+Definition ex_events : list event :=
+  [ mkEvent None 1600000000000000 10000000 1;      (* [0 s, 10 s] *)
+    mkEvent None 1600000002000000 1000000 2;       (* nested [2 s, 3 s] *)
+    mkEvent None 1600000009000000 5000000 3;       (* overlapping [9 s, 14 s] *)
+    mkEvent None 1600000014000000 0 4;             (* adjacent, zero-length at 14 s *)
+    mkEvent None 1600000002000000 999600 5 ].      (* [2 s, 2.9996 s]: ends 0.4 ms before 3 s *)
+Definition ex_ws : option Z := Some 1600000003000400.   (* floored to 3 s *)
+Definition ex_we : option Z := Some 1600000013999500.   (* pushed to 14 s *)
+
+Definition ex_mem : mstate :=
+  fold_left (fun c e => fst (mem_step c (InsertOne 1 e))) ex_events
+            (fst (mem_step mem_init (CreateBucket 1 ex_meta))).
+Definition ex_sq : sqstate :=
+  fold_left (fun c e => fst (sq_step c (InsertOne 1 e))) ex_events
+            (fst (sq_step sq_init (CreateBucket 1 ex_meta))).
+Definition ex_pw : pwstate :=
+  fold_left (fun c e => fst (pw_step c (InsertOne 1 e))) ex_events
+            (fst (pw_step pw_init (CreateBucket 1 ex_meta))).
+
+Example ex_round : bucket_get_round ex_ws ex_we = (Some 1600000003000000, Some 1600000014000000).
+Proof. vm_compute. reflexivity. Qed.
+
+Example ex_mem_view : exists m es, mem_view ex_mem 1 = Some (m, es) /\ length es = 5%nat /\
+  In (mkEvent (Some 1) 1600000002000000 1000000 2) es /\
+  meets 0 ex_ws ex_we (mkEvent (Some 0) 1600000000000000 10000000 1) = true.
+Proof. eexists _, _. split; [vm_compute; reflexivity|]. split; [reflexivity|]. split; [cbn; tauto|reflexivity]. Qed.
+
+(* the nested event touching the rounded start (3 s) and the zero-length one at the rounded end
+   (14 s) are returned; limit 2 keeps the two newest *)
+Example ex_mem_read :
+  mem_read ex_mem 1 (-1) ex_ws ex_we =
+    Ok (OEvents [ mkEvent (Some 3) 1600000014000000 0 4; mkEvent (Some 2) 1600000009000000 5000000 3;
+                  mkEvent (Some 1) 1600000002000000 1000000 2; mkEvent (Some 0) 1600000000000000 10000000 1 ]) /\
+  mem_read ex_mem 1 2 ex_ws ex_we =
+    Ok (OEvents [ mkEvent (Some 3) 1600000014000000 0 4; mkEvent (Some 2) 1600000009000000 5000000 3 ]) /\
+  mem_readcount ex_mem 1 ex_ws ex_we = Ok (OCount 2).
+Proof. vm_compute. repeat split; reflexivity. Qed.
+
+Example ex_float_param_ok : float_param_ok (fun t => t) /\ float_param_ok (fun t => t + 1).
+Proof. split; intros t H; lia. Qed.
+
+Example ex_sq_view : exists m es, sq_view ex_sq 1 = Some (m, es) /\ length es = 5%nat /\
+  Forall ev_dom es /\ edge_dom ex_ws /\ edge_dom ex_we.
+Proof.
+  eexists _, _. split; [vm_compute; reflexivity|]. split; [reflexivity|]. split.
+  - repeat constructor; vm_compute; intro; discriminate.
+  - split; intros w E; injection E as <-; vm_compute; split; intro; discriminate.
+Qed.
+
+(* a parameter that comes out 1 us high drops the event ending exactly at the rounded start *)
+Example ex_sq_read :
+  sq_read (fun t => t) (fun t => t) ex_sq 1 1 ex_ws ex_we =
+    Ok (OEvents [ mkEvent (Some 4) 1600000014000000 0 4 ]) /\
+  sq_read (fun t => t + 1) (fun t => t) ex_sq 1 (-1) ex_ws ex_we =
+    Ok (OEvents [ mkEvent (Some 4) 1600000014000000 0 4; mkEvent (Some 3) 1600000009000000 5000000 3;
+                  mkEvent (Some 1) 1600000000000000 10000000 1 ]).
+Proof. vm_compute. split; reflexivity. Qed.
+
+Example ex_sql_end_ok : sql_end_ok sql_end_nearest.
+Proof. exact sql_end_ok_nearest. Qed.
+
+Example ex_pw_stored : exists es, pw_stored ex_pw 1 = Some es /\ length es = 5%nat /\
+  Forall pw_dom es /\ ordered ex_ws ex_we /\ cache_ok ex_pw 1.
+Proof.
+  eexists. split; [vm_compute; reflexivity|]. split; [reflexivity|]. split.
+  - repeat constructor; vm_compute; intro; discriminate.
+  - split; [intros a z Ea Ez; injection Ea as <-; injection Ez as <-; vm_compute; intro; discriminate|].
+    vm_compute. reflexivity.
+Qed.
+
+(* whole-second rounded start: the event that ended 0.4 ms before it passes the TEXT test and
+   comes back clamped to duration 0 (id 5); the long event is cut at both ends (id 1); the
+   nested one ending exactly at 3 s is cut to a point (id 2) *)
+Example ex_pw_read :
+  pw_read sql_end_nearest ex_pw 1 (-1) ex_ws ex_we =
+    Ok (OEvents [ mkEvent (Some 4) 1600000014000000 0 4; mkEvent (Some 3) 1600000009000000 5000000 3;
+                  mkEvent (Some 5) 1600000003000000 0 5; mkEvent (Some 2) 1600000003000000 0 2;
+                  mkEvent (Some 1) 1600000003000000 7000000 1 ]).
+Proof. vm_compute. reflexivity. Qed.
